@@ -57,8 +57,10 @@ Table == <<
   [n |-> "include short", top |-> TRUE, p |-> <<"x-unused">>, short |-> S("a"), long |-> S("a")]
 >>
 
+DevCases == {<<"/dev/a">>, <<"/dev/a", "/dev/b">>, <<"/dev/a", "/dev/b", "rw">>, <<"/dev/a", "/dev/b", "r">>, <<"/dev/a", "/dev/b", "rw", "extra">>,
+             <<"/dev/a", "/dev/b", "rwm", "/dev/c">>}
 VARIABLE cs
-Init == \E k \in {"ports", "volumes", "table"} : cs = [seed |-> k]
+Init == \E k \in {"ports", "volumes", "table", "devices"} : cs = [seed |-> k]
 IsSeed == "seed" \in DOMAIN cs
 Next == /\ IsSeed
         /\ \/ cs.seed = "ports" /\ \E p \in PortCases :
@@ -67,6 +69,9 @@ Next == /\ IsSeed
            \/ cs.seed = "volumes" /\ \E v \in VolCases :
                 cs' = [family |-> "volumes", short |-> Sq1(S(VolShort(v))), valid |-> VolValid(v), long |-> (IF VolValid(v) THEN Sq1(VolLong(v)) ELSE EmptyL),
                        path |-> <<"services", "a", "volumes">>, n |-> "volumes", indomain |-> VolValid(v)]
+           \/ cs.seed = "devices" /\ \E d \in DevCases :
+                cs' = [family |-> "devices", short |-> Sq1(S(DevShort(d))), valid |-> DevValid(d), long |-> (IF DevValid(d) THEN Sq1(DevLong(d)) ELSE EmptyL),
+                       path |-> <<"services", "a", "devices">>, n |-> "devices"]
            \/ cs.seed = "table" /\ \E i \in 1..Len(Table) :
                 cs' = [family |-> "table", short |-> Table[i].short, valid |-> TRUE, long |-> Table[i].long,
                        path |-> (IF Table[i].top THEN <<>> ELSE <<"services", "a">>) \o Table[i].p, n |-> Table[i].n]
